@@ -31,6 +31,11 @@ SCRIPTS = {
     "list-noread": ["PASV", "@data", "@dstop", "LIST"],
     # the session changes user in the middle
     "relogin": ["USER bob", "PASS pw", "PWD", "USER anonymous", "PWD"],
+    # ... while a transfer of the old login is still under way (upload in progress / waiting for its data connection /
+    # blocked by a data peer that does not read)
+    "stor-then-relogin": ["EPSV", "@data", "STOR new", "@dsend 0123", "USER anonymous", "@dsend 4567", "@dclose", "PWD"],
+    "nodata-then-relogin": ["EPSV", "RETR d/f", "USER anonymous", "PWD"],
+    "retr-noread-then-relogin": ["EPSV", "@data", "@dstop", "RETR d/f", "USER bob", "PASS pw"],
 }
 
 TRANSFER_SCRIPTS = ["list", "mlsd", "retr", "stor", "appe", "rest-retr", "rest-stor"]
